@@ -149,7 +149,9 @@ Inductive outcome :=
    5 dangling reference (internal); 6 Return at the top level of main; 7 Abort inside a re-entrant
    native call; 8 comparison deeper than [eq_depth]; 9 empty variable name; 10 malformed program
    (no main, bad import); 11 native outside the menu called with a wrong number of arguments;
-   12 the key function of std.min/max/sorted(_by_key) changed the key set of the table *)
+   (12, no longer produced: "the key function of std.min/max/sorted(_by_key) changed the key set of
+   the table" - since 662697a the library works on the entries the table had when it was called, and
+   so does this semantics) *)
 Inductive res :=
 | RFuel
 | RUnspec (why : N)
@@ -176,9 +178,10 @@ Definition set_log l (s : state) := {| st_cells := st_cells s; st_heap := st_hea
 Definition bump (s : state) := {| st_cells := st_cells s; st_heap := st_heap s; st_clos := st_clos s;
   st_globals := st_globals s; st_log := st_log s; st_steps := N.succ (st_steps s); st_notes := st_notes s |}.
 
-(* note codes: 12 a Get past the end of a table that has an entry under the key nil (the row is
-   {key: nil, value: nil}; the implementation answers with the value stored under nil);
-   14 a global that was never assigned was read (VarNotFound) *)
+(* note codes: none in use.  (12 "a Get past the end of a table that has an entry under the key nil"
+   and 14 "a global that was never assigned was read" marked the runs of the findings R-3 and R-5
+   for the checker until they were repaired in 6d4c9a8 / a526e90; the mechanism stays for the next
+   class that needs a run-time mark.) *)
 Definition add_note (n : N) (s : state) := {| st_cells := st_cells s; st_heap := st_heap s; st_clos := st_clos s;
   st_globals := st_globals s; st_log := st_log s; st_steps := st_steps s; st_notes := n :: st_notes s |}.
 
@@ -574,7 +577,7 @@ Definition read_var (e : env) (s : state) (name : str) (k : value -> res) : res 
               end
   | None => match assoc v (st_globals s) with
             | Some x => get_props s e x props k
-            | None => err EVarNotFound e (add_note 14 s)
+            | None => err EVarNotFound e s
             end
   end.
 
@@ -687,11 +690,7 @@ Section Eval.
                                   | Some (k, v) => (of_key k, v)
                                   | None => (VNil, VNil)
                                   end in
-                   let s0 := match nth_error tb (Z.to_nat i), m_get tb KNil with
-                             | None, Some _ => add_note 12 s
-                             | _, _ => s
-                             end in
-                   let '(p, s') := alloc_table (row_table k v) s0 in
+                   let '(p, s') := alloc_table (row_table k v) s in
                    ok [VTable p] e s'
           | _ => err EInvalidArgument e s
           end)
@@ -852,17 +851,12 @@ Section Eval.
                          then let '(q, s1) := alloc_table [] s in ok [VTable q] e s1
                          else ok [VNil] e s
             | Some tb =>
-                (* the key function sees every entry in order, first to last *)
+                (* min / max / sorted work on the entries [tb] the table has when they are called
+                   (keys and values), whatever the key function does to the table meanwhile; the
+                   key function sees every one of those entries in order, first to last *)
                 match rec (TkKeys keyfn tb []) s with
                 | ROk (ONorm keys) _ s1 =>
                     let h := st_heap s1 in
-                    (* a key function that changes the KEY SET of the table the library is going
-                       through leaves the domain: the language does not say what min / max /
-                       sorted mean then *)
-                    if negb (match nth_error h p with
-                             | Some tb1 => list_eqb tkey_eqb (map fst tb) (map fst tb1)
-                             | None => false
-                             end) then RUnspec 12 else
                     if str_eqb name n_sort then
                       let sorted := stable_sort (sort_lt h) (combine keys tb) in
                       let out := fold_left (fun acc kv => s_insert acc (fst (snd kv)) (snd (snd kv)))
@@ -874,16 +868,12 @@ Section Eval.
                       | k0 :: kr =>
                           let i := best_index (cmp_is h (if str_eqb name n_min then Lt else Gt))
                                               kr 1 k0 0 in
-                          (* the row is read from the table as it is after the calls *)
-                          match nth_error (st_heap s1) p with
-                          | None => RUnspec 5
-                          | Some tb1 =>
-                              let '(k, v) := match nth_error tb1 i with
-                                             | Some (k, v) => (of_key k, v)
-                                             | None => (VNil, VNil)
-                                             end in
-                              let '(q, s2) := alloc_table (row_table k v) s1 in ok [VTable q] e s2
-                          end
+                          (* the row of the best entry, as it was when the library was called *)
+                          let '(k, v) := match nth_error tb i with
+                                         | Some (k, v) => (of_key k, v)
+                                         | None => (VNil, VNil)
+                                         end in
+                          let '(q, s2) := alloc_table (row_table k v) s1 in ok [VTable q] e s2
                       end
                 | ROk (OErr _) _ s1 => err ETaskFailure e s1
                 | ROk (ORet _) _ _ => RUnspec 5
